@@ -17,6 +17,7 @@ func init() {
 		Explanation: "Decided (structural necessary conditions, both script builders — dcmd.InitSequence and sshsb.(*SSHSandbox).initSequence): R1 the string that carries an environment value is rebuilt from the SSA concatenation as a template of constant pieces and symbolic holes (KEY, TAG, VALUE) and lexed as shell: VALUE must be the whole body of a here-document whose delimiter word is quoted (so the shell performs no expansion in the body), whose delimiter contains TAG, which starts right after the delimiter line and is closed by a line consisting of the same delimiter; VALUE may not appear anywhere else (e.g. inside a format string); R2 TAG derives from varutil.RandString with a constant length >= 8 evaluated inside the builder on every call (not a package-level or cached value), and the opening and closing delimiter are the same value; R3 every store into the environment map is dominated by a nil result of the key validator for that key (Set) or for the whole map being copied (SetAll), the validator errors exactly when the pattern does not match, and the pattern — parsed from the source constant with regexp/syntax — is anchored at both ends with a language included in [A-Za-z_][A-Za-z0-9_]*. " +
 			"R2 also: varutil.RandString does not create or seed its generator on every call (no rand.NewSource/Seed/New inside it): a per-call clock seed makes the terminator predictable. " +
 			"Added in round 6: R3 accepts a validator that collects every failure (append or a collector call) and returns the aggregate of the list, also in two phases (failing keys collected, then validated again for the messages) when validKey is shown to depend on its argument alone (no writes, no mutable reads, only pure callees). " +
+			"Added in round 7: R3 requires that the name valid() hands to the validator is the ranged map key itself (not a trimmed copy of what SetAll stores), and accepts a validator that collects the failing names, returns nil only where that list is known empty and otherwise a fresh error or the deterministic validator applied again to a collected name. " +
 			"NOT decided: what /bin/sh does with the script beyond the POSIX rule used in R1 (a quoted delimiter disables expansion); values containing a line equal to the random delimiter (probabilistic argument, R2).",
 	})
 }
@@ -791,6 +792,30 @@ func ruleEnvNames(c *Ctx) {
 					okb = false
 				}
 			}
+			// the name that is checked is the map's own key, as it will be stored - not a trimmed or
+			// otherwise rewritten copy of it
+			ownKey := false
+			if ex, isEx := resolve(call.Call.Args[len(call.Call.Args)-1]).(*ssa.Extract); isEx && ex.Index == 1 {
+				_, ownKey = ex.Tuple.(*ssa.Next)
+			}
+			if !ownKey {
+				// ... or an element of a local slice that holds nothing but the map's keys (sorted first)
+				els := appendedElems(call.Call.Args[len(call.Call.Args)-1])
+				ownKey = len(els) > 0
+				for _, el := range els {
+					ex, isEx := resolve(el.v).(*ssa.Extract)
+					if !isEx || ex.Index != 1 {
+						ownKey = false
+						continue
+					}
+					if _, isNext := ex.Tuple.(*ssa.Next); !isNext {
+						ownKey = false
+					}
+				}
+			}
+			if !ownKey {
+				continue
+			}
 			if inLp && retErr && okb {
 				okv = true
 			}
@@ -1152,7 +1177,7 @@ func nilDeterministic(fn *ssa.Function, depth int) bool {
 func twoPhaseValidation(valid, validKey *ssa.Function) bool {
 	vf := factsFor(valid)
 	calls := CallsTo(valid, qualName(validKey))
-	if len(calls) < 2 {
+	if len(calls) < 1 {
 		return false
 	}
 	// phase 1: a call on the map's key whose failing edge appends that key
@@ -1211,6 +1236,83 @@ func twoPhaseValidation(valid, validKey *ssa.Function) bool {
 	}
 	if coll == nil {
 		return false
+	}
+	// phase 2b: the list of failing keys decides the verdict: nil is returned only where the list is
+	// known to be empty, every other return is an error that cannot be nil (a fresh one, or the
+	// deterministic validator applied again to a collected key)
+	{
+		var fromColl func(s ssa.Value, d int) bool
+		fromColl = func(s ssa.Value, d int) bool {
+			if s == nil || d > 8 {
+				return false
+			}
+			if s == ssa.Value(coll) {
+				return true
+			}
+			switch x := s.(type) {
+			case *ssa.Phi:
+				for _, e := range x.Edges {
+					if e != ssa.Value(x) && fromColl(e, d+1) {
+						return true
+					}
+				}
+			case *ssa.Call:
+				if bi, ok := x.Call.Value.(*ssa.Builtin); ok && bi.Name() == "append" {
+					return fromColl(x.Call.Args[0], d+1)
+				}
+			}
+			return false
+		}
+		okAll, nils, errs := true, 0, 0
+		for _, r := range returnsOf(valid) {
+			v := resolve(r.Results[0])
+			switch {
+			case isNilConst(v):
+				found := false
+				for k := range vf.At(r.Block()) {
+					bo, ok := k.v.(*ssa.BinOp)
+					if !ok {
+						continue
+					}
+					lc, isC := bo.X.(*ssa.Call)
+					if !isC {
+						continue
+					}
+					if bi, isB := lc.Call.Value.(*ssa.Builtin); !isB || bi.Name() != "len" || !fromColl(lc.Call.Args[0], 0) {
+						continue
+					}
+					if z, isZ := constInt(bo.Y); !isZ || z != 0 {
+						continue
+					}
+					if (bo.Op == token.EQL && k.pol) || (bo.Op == token.NEQ && !k.pol) {
+						found = true
+					}
+				}
+				if !found {
+					okAll = false
+				}
+				nils++
+			case isNonNilErrValue(v, 0):
+				errs++
+			default:
+				c2, isC := v.(*ssa.Call)
+				good := false
+				if isC && c2.Call.StaticCallee() == validKey {
+					for _, el := range appendedElems(c2.Call.Args[len(c2.Call.Args)-1]) {
+						if el.at == ssa.Instruction(coll) {
+							good = true
+						}
+					}
+				}
+				if !good {
+					okAll = false
+				}
+				errs++
+			}
+		}
+		if okAll && nils > 0 && errs > 0 {
+			return true
+		}
 	}
 	// phase 2: a call on an element of the collected slice whose result is collected and aggregated
 	for _, ci := range calls {
